@@ -274,7 +274,7 @@ impl Prop for C34 {
         ]
     }
     fn phases(&self, tier: Tier) -> Vec<Phase<Case>> {
-        vec![Phase::random("pairs", cases(), tier.pick(60_000, 1_500_000))]
+        vec![Phase::random("pairs", cases(), tier.pick(60_000, 300_000))]
     }
     fn render(&self, c: &Case) -> serde_json::Value {
         let n = c.args.len();
